@@ -32,11 +32,12 @@ ASSUMPTIONS = OC.STUBS + [
 ]
 BOUNDS = {
     "quick": "knobs x targets in {1x1, 2x1, 1x2}, n_steps_max=1, n_bisections=0, Broyden off/on (1x1), one disabled knob (2x1) or target (1x2), "
-             "optionally the k-th Action.run call raising (1x1, every k), symbolic target values (1x1)",
+             "optionally the k-th Action.run call raising (1x1, every k), symbolic target values (1x1); 2x1 with a knob that is inactive in row 0 of the log (constructed with active=False, or disabled followed by clear_log(), or disabled after construction) and moved by hand before solve()",
     "thorough": "adds 2x2, n_steps_max=2 (1x1, 2x1), n_bisections=1 and error_on_penalty_increase (1x1), symbolic knob weights (1x1)",
 }
 OUTSIDE = "more steps/knobs/targets; float rounding in the tolerance comparison; quality of real LAPACK steps (irrelevant: the claim holds for any step)"
-REQUIRED_CLASSES = ["return", "runtime_error", "user_exception", "restore_checked", "within_tol_checked", "request_edited"]
+REQUIRED_CLASSES = ["return", "runtime_error", "user_exception", "restore_checked", "within_tol_checked", "request_edited",
+                    "prelude_inactive_hand", "prelude_disable_clear_hand"]
 REPLAY_REALS = ["fraction"]
 PROFILE_CASES = 2
 TASKS_PER_CHILD = 10
@@ -76,6 +77,21 @@ def run_case(ex, case):
             opt.disable(vary=dis[1])
         else:
             opt.disable(target=dis[1])
+    pre = case.get("prelude")
+    if pre:
+        # state changes between construction and solve(): a knob that is inactive in row 0 of the log
+        # (constructed inactive, or disabled and the log cleared) is moved by hand afterwards
+        OC.note(ex, "prelude_" + pre)
+        if pre == "disable_clear_hand":
+            opt.disable(vary=1)
+            opt.clear_log()
+        elif pre == "tag_disable_hand":
+            opt.disable(vary=1)
+            opt.tag("mark")
+        nv = ex.real("hand_value")
+        ex.assume(tobool(P.lims[1][0] <= nv))
+        ex.assume(tobool(nv <= P.lims[1][1]))
+        P.d["k1"] = nv
     row0_knobs = list(opt._log["knobs"][0])
     row0_vact = opt._log["vary_active"][0]
     row0_tact = opt._log["target_active"][0]
@@ -132,6 +148,9 @@ def _base():
         {"tag": "1x1", "nk": 1, "nt": 1, "edit": "tol", "broyden": True},
         {"tag": "2x1", "nk": 2, "nt": 1},
         {"tag": "2x1", "nk": 2, "nt": 1, "disable": ["vary", 1]},
+        {"tag": "2x1", "nk": 2, "nt": 1, "init_inactive_vary": [1], "prelude": "inactive_hand"},
+        {"tag": "2x1", "nk": 2, "nt": 1, "prelude": "disable_clear_hand"},
+        {"tag": "2x1", "nk": 2, "nt": 1, "prelude": "tag_disable_hand"},
         {"tag": "1x2", "nk": 1, "nt": 2},
         {"tag": "1x2", "nk": 1, "nt": 2, "disable": ["target", 0]},
     ]
